@@ -11,6 +11,36 @@ CLAIMS = {
   note="Trusted: CPython pathlib/os on tmpfs, the reference model (dsim/model). Not covered: case-insensitive file systems, Windows paths, I/O errors, threads.",
   technique="deterministic simulation: seeded enumeration-order / hash-seed / cwd / spelling schedules over a simulated workspace, reference-model oracle",
   ref="§3 C10"),
+ "C19": dict(
+  text="Seeded exploration in World W: one logical read is executed three times while the simulator rewrites, adds and renames files that the abstract namespace model proves to lie outside the dependency closure (garbage, every rule violation of the catalogue, failing @assert, @print, kind / extent / port-ID conflicts, odd directory names; malformed file names in a sub-mode); canonical results or the raised error (class, path, line) must be identical, and the print handler must never see an out-of-closure directive. Sampling, replayable.",
+  note="Trusted: closure computed by the reference model; the open() monitor is a probe only. Not covered: I/O errors, non-UTF-8 bytes.",
+  technique="deterministic simulation: seeded file-mutation schedule between reads of a simulated workspace, metamorphic + model oracle",
+  ref="§3 C19"),
+ "C09": dict(
+  text="Seeded exploration in World W over dependency graphs (chains, diamonds, fans, version families, cross-root edges) read in seeded orders (read_namespace per root, read_files on subsets, stand-alone reads): every composite reachable through Field.data_type must match the model of the named definition and the stand-alone read of it; planted reference defects (missing name/version, self reference, cycles through fields and type expressions, letter-case mismatch, same name+version in two lookup directories) must end in InvalidDefinitionError - never a return, InternalError, RecursionError or hang (watchdog).",
+  note="Trusted: reference model of resolution (exact full name + exact version). Reach order is controlled through seeded names and target subsets, measured by open-order signatures.",
+  technique="deterministic simulation: seeded reach-order schedules over cached definition objects, reference-model oracle, watchdog for termination",
+  ref="§3 C09"),
+ "C15": dict(
+  text="Seeded exploration in World W: definition files at depths 0-4 with mixed-case names, boundary versions and port-IDs are read under every designation of targets and roots (absolute, bare name, '..', symlink alias, namespace-relative target with absolute / cwd-relative / no root, decoy directories, list order, varying cwd); identity and source paths must equal what the model decodes from the path; supported designations must succeed, documented-open ones are checked for soundness only; malformed file / directory names in a scanned root must be rejected.",
+  note="Not generated: numeric components only Python's int() accepts; bare root names with a same-named ancestor directory (ambiguous).",
+  technique="deterministic simulation: seeded cwd / designation / alias configurations of a simulated workspace, reference-model oracle",
+  ref="§3 C15"),
+ "C05": dict(
+  text="By-product of the fault catalogue (a pure predicate; the simulation only adds position / order / spelling independence): valid generated workspaces receive 0-2 injections (18 abstract mutators, 40 raw statement / directive injectors); the verdict is computed from the mutated abstract workspace by model/rules.py, so boundary neighbours that stay valid must be accepted and everything else rejected with InvalidDefinitionError, in targets and dependencies alike.",
+  note="Trusted: model/rules.py as the statement of the static rules (reserved-word list from the Specification). Open cases (attribute names differing by case) are skipped.",
+  technique="deterministic simulation harness used for catalogue-driven rule-violation injection with a reference predicate (by-product claim)",
+  ref="§3 C05"),
+ "C11": dict(
+  text="Seeded exploration in World W over families of definitions (majors incl. 0, minors, message/service, port-ID patterns, sealing, extents) distributed over a target root, a lookup root and a split root, partly inside and partly outside the closure; three-valued model verdict (must reject / must accept / open) compared with read_namespace and read_files.",
+  note="Open (either verdict accepted): a direct definition's port-ID colliding with a transitive one's.",
+  technique="deterministic simulation: seeded file-system configurations (placement / closure membership) with a reference predicate",
+  ref="§3 C11"),
+ "C12": dict(
+  text="By-product (pure predicate): boundary-value constants for every kind / width / cast mode are read one definition at a time; acceptance must equal model/rules.py and every returned Constant must satisfy the independent range tables and carry the exact rational.",
+  note="Trusted: independent IEEE-754 limits and integer ranges in model/types.py.",
+  technique="deterministic simulation harness used for boundary-value injection with an invariant monitor (by-product claim)",
+  ref="§3 C12"),
 }
 NA = {
  "C04": "pure function of one expression string: no schedule, clock, fault, peer or history for a simulator to control (DESIGN.md §4)",
